@@ -54,9 +54,11 @@ func genC20(c *Ctx) {
 			defer wg.Done()
 			for i := 0; i < rounds; i++ {
 				var src, tag string
+				// symbol lengths vary (short, around typical caching thresholds, long)
+				pad := strings.Repeat("x", []int{0, 0, 10, 50, 60, 70, 130, 300}[rng.Intn(8)])
 				switch rng.Intn(6) {
 				case 0: // direct table API: intern then read back
-					name := fmt.Sprintf("sym_%d_%d_%d", c.Seed, g, i)
+					name := fmt.Sprintf("sym_%d_%d_%d%s", c.Seed, g, i, pad)
 					h := object.GetSymHash(name)
 					s, ok := object.SymHash2Str(h)
 					impl := "ok"
@@ -70,16 +72,16 @@ func genC20(c *Ctx) {
 					results[g] = append(results[g], rec)
 					continue
 				case 1: // new identifiers + evalEnv (Env.Items -> SymHash2Str)
-					src = fmt.Sprintf("\"v%d_%d_%d := %d; w%d_%d := 2\".evalEnv.keys", c.Seed, g, i, i, g, i)
+					src = fmt.Sprintf("\"v%d_%d_%d%s := %d; w%d_%d := 2\".evalEnv.keys", c.Seed, g, i, pad, i, g, i)
 					tag = "evalEnv"
 				case 2: // new object keys, then keys (symbol -> str)
-					src = fmt.Sprintf("{k%d_%d_%d: 1, l%d_%d: 2}.keys", c.Seed, g, i, g, i)
+					src = fmt.Sprintf("{k%d_%d_%d%s: 1, l%d_%d: 2}.keys", c.Seed, g, i, pad, g, i)
 					tag = "obj-keys"
 				case 3: // JSON keys are interned while decoding
-					src = fmt.Sprintf("`{\"j%d_%d_%d\": 1}`.decJSON.keys", c.Seed, g, i)
+					src = fmt.Sprintf("`{\"j%d_%d_%d%s\": 1}`.decJSON.keys", c.Seed, g, i, pad)
 					tag = "json-keys"
 				case 4: // property call on a fresh name (NoPropErr path interns the name)
-					src = fmt.Sprintf("{a: 1}.try.p%d_%d_%d.err?", c.Seed, g, i)
+					src = fmt.Sprintf("{a: 1}.try.p%d_%d_%d%s.err?", c.Seed, g, i, pad)
 					tag = "fresh-prop"
 				default: // readers only
 					src = "{a: 1, b: 2, c: 3}.items"
